@@ -10,7 +10,7 @@ SPEC = {
         {'pkg': 'commit/merkleroot', 'pkgname': 'merkleroot', 'src': 'harness/commit/merkleroot/c04_test.go', 'test': 'TestVerif_C04_state', 'fakes': True,
          'sinks': {'C04_state': 'st_judge'}, 'n': {'quick': 800, 'thorough': 30000}},
     ],
-    'rule': 'C04_transmit / C04_final: simulated DON histories with real commit.Plugin instances over one shared world; the DON shape is drawn per history: '
+    'rule': 'rollout rounds (1 round in 8 of every history): three camps of oracles report three different f for one source chain, none 2F+1 strong - the chain must be left out of that round whatever earlier rounds agreed; C04_transmit / C04_final: simulated DON histories with real commit.Plugin instances over one shared world; the DON shape is drawn per history: '
             'n4 (3 histories of 5; 36 rounds): 4 oracles, F = 1, f = 1 on every chain, destination read by all, a source chain possibly not by one oracle, destination f = 2 in class fdest2 (f_dest != f_k, F26), optional Byzantine oracle 3; '
             'n7 / n10 (1 of 5 each; 24 / 18 rounds): 7 / 10 oracles, F = 2 / 3, a role DON with a small destination committee (f_dest = 1, read by oracles 0..3 only) and larger source committees (f_src in {1,2} / {2,3}, at least one '
             'f_src > f_dest, read by 3*f_src+1 .. N oracles, so some oracles lack the destination and some honest transmitters lack a source), 0 .. F Byzantine oracles (at most f_dest among the destination readers, at most f_src among '
